@@ -19,6 +19,9 @@ CTOR = {"netlist": sdn.Netlist, "library": sdn.Library, "definition": sdn.Defini
 CHILD_KINDS = {"netlist": ["library"], "library": ["definition"], "definition": ["port", "cable", "instance"]}
 ADD = {"library": "add_library", "definition": "add_definition", "port": "add_port", "cable": "add_cable", "instance": "add_child"}
 REM = {"library": "remove_library", "definition": "remove_definition", "port": "remove_port", "cable": "remove_cable", "instance": "remove_child"}
+CHILDREN = {"library": "libraries", "definition": "definitions", "port": "ports", "cable": "cables", "instance": "children"}
+REM_MANY = {"library": "remove_libraries_from", "definition": "remove_definitions_from", "port": "remove_ports_from",
+            "cable": "remove_cables_from", "instance": "remove_children_from"}
 LISTATTR = {"library": "_libraries", "definition": "_definitions", "port": "_ports", "cable": "_cables", "instance": "_children"}
 BACK = {"library": "_netlist", "definition": "_library", "port": "_definition", "cable": "_definition", "instance": "_parent"}
 GET = {"library": sdn.get_libraries, "definition": sdn.get_definitions, "port": sdn.get_ports, "cable": sdn.get_cables, "instance": sdn.get_instances}
@@ -139,6 +142,12 @@ def execute(W, op):
         elif t == "detach":
             p, c = W.get(op["p"]), W.get(op["c"])
             getattr(p, REM[op["c"][0]])(c)
+        elif t == "detachMany":
+            p = W.get(op["p"])
+            xs = [W.get(c) for c in op["cs"]]
+            form = op.get("form", "list")
+            arg = set(xs) if form == "set" else tuple(xs) if form == "tuple" else (x for x in list(xs)) if form == "gen" else list(xs)
+            getattr(p, REM_MANY[op["cs"][0][0]])(arg)
         elif t == "setKey":
             e = W.get(op["e"])
             if op["k"] == "name" and op.get("via_prop"):
@@ -359,6 +368,21 @@ def gen_op(rng, W):
             orph = [e for e in by[ck] if parent_of(W.get(e), ck) is None]
             c = rng.choice(orph) if (orph and rng.random() < 0.85) else rng.choice(by[ck])
             return {"t": "attach", "p": rng.choice(by[pk]), "c": c}
+    if r < 0.435:
+        # bulk removal: some children of one parent, sometimes together with an element that is not its child
+        # (refused as a whole: nothing may change)
+        ck = rng.choice(["library", "definition", "port", "cable", "instance"])
+        pk = {"library": "netlist", "definition": "library"}.get(ck, "definition")
+        par = [P for P in by[pk] if any(parent_of(W.get(e), ck) is W.get(P) for e in by[ck])]
+        if par:
+            P = rng.choice(par)
+            kids = [e for e in by[ck] if parent_of(W.get(e), ck) is W.get(P)]
+            rng.shuffle(kids)
+            cs = kids[:rng.randint(1, min(3, len(kids)))]
+            others = [e for e in by[ck] if parent_of(W.get(e), ck) is not W.get(P)]
+            if others and rng.random() < 0.4:
+                cs.insert(rng.randrange(len(cs) + 1), rng.choice(others))
+            return {"t": "detachMany", "p": P, "cs": cs, "form": rng.choice(["list", "list", "set", "tuple", "gen"])}
     if r < 0.50:
         owned = [e for e in els if e[0] != "netlist" and parent_of(W.get(e), e[0]) is not None]
         if owned and rng.random() < 0.9:
@@ -469,10 +493,19 @@ def run_script(ops_or_len, rng, drv, res, fast=True, c14=False):
                     continue
             elif op["t"] != "create" and any(W.get(op[f]) is None for f in ("e", "p", "c") if f in op):
                 continue        # shrinking removed the create op of an operand
+            if op["t"] == "detachMany" and any(W.get(c) is None for c in op["cs"]):
+                continue
             if op["t"] == "create" and W.get(op["e"]) is not None:
                 continue
             script.append(op)
             exp = expected_refusal(W, op)
+            if op["t"] == "detachMany":
+                P0 = W.get(op["p"])
+                ck0 = op["cs"][0][0]
+                many_ok = all(parent_of(W.get(c), ck0) is P0 for c in op["cs"])
+                kids0 = list(getattr(P0, CHILDREN[ck0]))
+                many_order = sorted({tuple(c) for c in op["cs"]}, key=lambda c: kids0.index(W.get(list(c))) if many_ok else 0)
+                many_order = [list(c) for c in many_order]
             snap0 = (dump_impl(W), [(q[0], q[1], q[2], q[3], q[4]) for q in queries(W, drv, rng, full=True)]) if c14 else None
             out = execute(W, op)
             if c14 and out != "ok":
@@ -487,7 +520,19 @@ def run_script(ops_or_len, rng, drv, res, fast=True, c14=False):
                 script.pop()
                 res.dist("nop:clone:skipped_ill_formed_connectivity")
                 continue
-            m = drv.ask({"cmd": "nop", "op": {kk: v for kk, v in op.items() if kk not in ("via_prop", "assign_none")}})
+            if op["t"] == "detachMany":
+                # all members: the removals one by one (in the container's order); otherwise refused as a whole
+                if many_ok:
+                    m = {"res": "ok"}
+                    for c in many_order:
+                        m1 = drv.ask({"cmd": "nop", "op": {"t": "detach", "p": op["p"], "c": c}})
+                        if "error" in m1 or m1.get("res") != "ok":
+                            m = m1
+                            break
+                else:
+                    m = {"res": "assert"}
+            else:
+                m = drv.ask({"cmd": "nop", "op": {kk: v for kk, v in op.items() if kk not in ("via_prop", "assign_none")}})
             if "error" in m:
                 raise RuntimeError("driver rejected %r: %s" % (op, m["error"]))
             res.dist("nop:" + op["t"])
